@@ -63,10 +63,19 @@ def project_envelope(e):
 
 
 def run_stream(sources: list[tuple[str, str]], opts: tuple[bool, bool, bool]):
-    """The real GherkinEvents over the sources [(uri, data)]; -> per source: raw envelopes"""
-    ge = GherkinEvents(GherkinEvents.Options(print_source=opts[0], print_ast=opts[1], print_pickles=opts[2]))
+    """The real GherkinEvents over the sources [(uri, data)]; -> per source: raw envelopes.
+    opts: one option triple for the whole stream, or a list with one triple per source -- then the options of the ONE stream object are changed between
+    sources (fields assigned in place, or a new Options object assigned, alternating)"""
+    per_source = isinstance(opts, list)
+    first = opts[0] if per_source and opts else (True, True, True) if per_source else opts
+    ge = GherkinEvents(GherkinEvents.Options(print_source=first[0], print_ast=first[1], print_pickles=first[2]))
     out = []
-    for uri, data in sources:
+    for k, (uri, data) in enumerate(sources):
+        if per_source and k > 0 and opts[k] != opts[k - 1]:
+            if (k + len(sources)) % 2:
+                ge.options.print_source, ge.options.print_ast, ge.options.print_pickles = opts[k]
+            else:
+                ge.options = GherkinEvents.Options(print_source=opts[k][0], print_ast=opts[k][1], print_pickles=opts[k][2])
         ev = {"source": {"uri": uri, "data": data, "mediaType": MEDIA}}
         try:
             envs = list(ge.enum(ev))
@@ -95,7 +104,9 @@ def record_run(name, sources, opts):
             sh.append(shape(e))
         envs.append(pe)
         shapes.append(sh)
-    return dict(name=name, opts=dict(source=opts[0], ast=opts[1], pickles=opts[2]),
+    seq = opts if isinstance(opts, list) else [opts] * len(sources)
+    first = seq[0] if seq else (True, True, True)
+    return dict(name=name, opts=dict(source=first[0], ast=first[1], pickles=first[2]), optseq=[dict(source=o[0], ast=o[1], pickles=o[2]) for o in seq],
                 sources=[dict(uri=cp(u), data=cp(d)) for u, d in sources], envs=envs, shapes=shapes, notes=notes), raw
 
 
@@ -131,10 +142,11 @@ def validate(runs: list[dict], timeout=3000, refshapes=None):
     return mism, done, res
 
 
-def cli_events(files: list[str], flags: list[str]) -> list[dict]:
+def cli_events(files: list[str], flags: list[str], env_extra: dict | None = None, cwd: str | None = None) -> list[dict]:
     """scripts/generate_events.py as a subprocess: the JSON text it prints, parsed back."""
-    env = dict(os.environ, PYTHONPATH=PYROOT, PYTHONDONTWRITEBYTECODE="1")
-    p = subprocess.run([sys.executable, os.path.join(PYROOT, "scripts", "generate_events.py"), *flags, *files], capture_output=True, text=True, env=env, timeout=120)
+    env = dict(os.environ, PYTHONPATH=PYROOT, PYTHONDONTWRITEBYTECODE="1", **(env_extra or {}))
+    p = subprocess.run([sys.executable, os.path.join(PYROOT, "scripts", "generate_events.py"), *flags, *files], capture_output=True, text=True, env=env, timeout=120, cwd=cwd,
+                       encoding="utf8" if env_extra else None)
     if p.returncode != 0:
         return [{"exception": p.stderr[-500:]}]
     return [json.loads(l) for l in p.stdout.splitlines() if l.strip()]
@@ -165,7 +177,7 @@ def model_check_and_replay(max_sources: int, pool=POOL, timeout=3000):
     for st in streams:
         o = st["opts"]
         srcs = [pool[i - 1] for i in st["seq"]]
-        rec, raw = record_run("mc", srcs, (o["source"], o["ast"], o["pickles"]))
+        rec, raw = record_run("mc", srcs, [(x["source"], x["ast"], x["pickles"]) for x in st["optseq"]] if st["seq"] else (o["source"], o["ast"], o["pickles"]))
         if rec["envs"] != st["segs"] or rec["notes"]:
             k = next((j for j, (a, b) in enumerate(zip(rec["envs"], st["segs"])) if a != b), None)
             bad.append(dict(seq=st["seq"], opts=o, first_differing_source=k, notes=rec["notes"],
